@@ -243,7 +243,7 @@ def instance_evaluate():
                       ('e.insert(', 'state.entries.insert(v.id, '),
                       ('Optimality::Unspecified.into()', 'optimality_as_i32(Optimality::Unspecified)'),
                       ('Relaxation::Unspecified.into()', 'relaxation_as_i32(Relaxation::Unspecified)')],
-                subs_all=[('used_ids.extend(used_ids_);', 'btreeset_extend(&mut used_ids, used_ids_);', 3)],
+                rsubs=[(r'used_ids\.extend\((\w+)\);', r'btreeset_extend(&mut used_ids, \1);', None)],
                 loops=[
                     dict(kind='for', it='it_1', inv='''invariant
                 evaluated_constraints.len() == it_1.index@,
